@@ -255,6 +255,33 @@ def relog_race():
     return hit, "\n".join(text)
 
 
+def vlog_header():
+    """process crash between the creation of a value-log file and the write of its header, reopen, a flush that
+    appends values (the empty file is the one with the highest id), clean close, reopen: the store must open"""
+    ch = Chain("vlogheader")
+    text = []
+    opts = "lc=2,vlog=1,vth=8,vfs=4096"
+    out, log = ch.session(txn(1, [("61", "rep:100:1"), ("62", "rep:100:2")], sync=True) + ["flush"], opts=opts)
+    k = ch.cut(lambda i, l, sim: l.startswith("O ") and "/vlog/" in l and l.split()[2].startswith("c"))
+    if k is None:
+        return False, "no value-log file creation in session 1"
+    text.append("session 1 (options %s): txn1 acknowledged (sync); flush; PROCESS crash right after log line %d (the value-log file exists, its header is not written yet)" % (opts, k))
+    out, log = ch.session(["begin 9 ro", "scan 9 - ~ f", "drop 9"] + txn(2, [("63", "rep:100:3")], sync=True) + ["flush"], opts=opts)
+    text.append("session 2: open = %s, scan = %s; txn2 acknowledged; flush = %s; PROCESS crash at the end" % (
+        out[1] if len(out) > 1 else out, out[3] if len(out) > 3 else "-", out[-2] if len(out) > 1 else "-"))
+    root, log2, sim = ch.cur
+    ch.cut(lambda i, l, sim_: i == len(log2) - 1)
+    out3, _ = ch.session(["begin 9 ro", "scan 9 - ~ f"], "proc", opts=opts)
+    res = (out3[1] if len(out3) > 1 else "no-answer"), (out3[3] if len(out3) > 3 else str(out3))
+    text.append("session 3: open = %s, scan = %s" % res)
+    good = res[0] == "ok" and all(("6%d=" % j) in res[1] for j in (1, 2, 3))
+    hit = (len(out) > 1 and out[1] == "ok") and not good
+    text.append("   the store written by session 2 does not reopen with its content" if hit else "   (not reproduced)")
+    text += ["# scripts:"] + ["#  session %d (image policy %s): %s" % (i + 1, pol, " ; ".join(s_[1:])) for i, (pol, s_) in enumerate(ch.scripts)]
+    ch.cleanup()
+    return hit, "\n".join(text)
+
+
 SCENARIOS = {
     # class name -> (property, scenario)
     "recovery_piece_part_of_txn_wal_unsynced": ("C03", piece),
@@ -262,6 +289,7 @@ SCENARIOS = {
     "vlog_rotated_file_not_fsynced": ("C02", vlog_rotated),
     "acks_behind_torn_first_record_lost": ("C02", torn_first),
     "flush_before_relog_part_of_txn": ("C03", relog_race),
+    "empty_vlog_file_gets_no_header": ("C07", vlog_header),
 }
 
 
